@@ -22,6 +22,7 @@ from pyvc.symexec import Frame
 from pyvc.vals import TRef, V, Val, uf
 
 ENABLED = False
+DROP_ZERO_TAIL = True
 PROPS = ('C05', 'C06')
 
 
@@ -147,48 +148,72 @@ def _sum_key(st, lam, lo):
 
 def _sum_range(ex, st, args, kw, node):
     from pyvc.vals import as_int, as_real, fresh_name, v_int
+    n_pc = len(st.pc)
     res = _orig_sum_range(ex, st, args, kw, node)
-    if not _mine(ex) or st.bound or st.use_old:
+    if not _mine(ex):
+        return res
+    if DROP_ZERO_TAIL:
+        # the core's sum-zero-tail lemma (two bound variables, multi-pattern over every pair of prefix sums) is not needed
+        # by the C05/C06 proofs and makes the solver diverge once several sums are present: dropping a hypothesis is sound
+        st.pc[n_pc:] = [h for h in st.pc[n_pc:] if not (z3.is_quantifier(h) and h.is_forall() and h.num_vars() == 2)]
+    if st.bound or st.use_old:
         return res
     lam, lo, hi = args
     key = _sum_key(st, lam, lo)
+    S = lib._SUMS.get(key)
+    if S is None:
+        return res
     lo_t, hi_t = as_int(lo), as_int(hi)
     seen = st.ghost.get('c05c-sums', ())
     mine = None
     others = []
-    for (k2, lam2, lo2, his2) in seen:
-        if k2 == key:
-            mine = (k2, lam2, lo2, his2)
+    for ent in seen:
+        if ent[0] == key:
+            mine = ent
         else:
-            others.append((k2, lam2, lo2, his2))
+            others.append(ent)
     his = tuple(mine[3]) if mine else ()
     new_hi = not any(h.eq(hi_t) for h in his)
     if new_hi:
         his = his + (hi_t,)
-    st.ghost['c05c-sums'] = tuple(others) + ((key, lam, lo, his),)
+    # each sum is remembered with ITS prefix-sum function and the heap its terms were read in
+    me = (key, lam, lo_t, his, S, dict(st.heap))
+    st.ghost['c05c-sums'] = tuple(others) + (me,)
     if not new_hi:
         return res
     done = st.ghost.get('c05c-cong', frozenset())
-    for (k2, lam2, lo2, his2) in others:
-        if not as_int(lo2).eq(lo_t):
+
+    def term_at(ent, q):
+        saved = st.heap
+        st.heap = dict(ent[5])
+        try:
+            return as_real(ex.call(st, ent[1], [v_int(q)], {}, node))
+        finally:
+            for f_, a_ in st.heap.items():
+                saved.setdefault(f_, a_)
+            st.heap = saved
+
+    def total(ent, b):
+        return z3.If(b > ent[2], ent[4](b), z3.RealVal(0))
+    for ent in others:
+        if not ent[2].eq(lo_t):
             continue
-        for b in (hi_t,) + tuple(his2):
-            mark = (key, k2, b.get_id())
-            if mark in done or (k2, key, b.get_id()) in done:
+        for b in (hi_t,) + tuple(ent[3]):
+            mark = (key, ent[0], b.get_id())
+            if mark in done or (ent[0], key, b.get_id()) in done:
                 continue
             done = done | {mark}
-            q = z3.Int(fresh_name('cq'))
-            st.bound.append((q, z3.And(q >= lo_t, q < b)))
+            # Skolem form of  (forall q in [lo,b): f1(q) == f2(q)) -> S1(b) == S2(b):  for a FRESH constant q0,
+            # (lo <= q0 < b -> f1(q0) == f2(q0)) -> S1(b) == S2(b)   (the witness of a failing premise is named)
+            q = z3.Int(fresh_name('cq0'))
+            rng = z3.And(q >= lo_t, q < b)
+            st.guards.append(rng)
             try:
-                f1 = as_real(ex.call(st, lam, [v_int(q)], {}, node))
-                f2 = as_real(ex.call(st, lam2, [v_int(q)], {}, node))
+                f1 = term_at(me, q)
+                f2 = term_at(ent, q)
             finally:
-                st.bound.pop()
-            pointwise = z3.ForAll([q], z3.Implies(z3.And(q >= lo_t, q < b), f1 == f2))
-            bv = v_int(b)
-            s1 = as_real(_orig_sum_range(ex, st, [lam, lo, bv], kw, node))
-            s2 = as_real(_orig_sum_range(ex, st, [lam2, lo2, bv], kw, node))
-            st.pc.append(z3.Implies(pointwise, s1 == s2))
+                st.guards.pop()
+            st.pc.append(z3.Implies(z3.Implies(rng, f1 == f2), total(me, b) == total(ent, b)))
             ex.ctx.note('LEMMA sum-congruence: sums with pointwise equal terms over the same range are equal (induction)')
     st.ghost['c05c-cong'] = done
     return res
